@@ -25,6 +25,7 @@ import BRV.Props.C10
 import BRV.Props.C12
 import BRV.Props.C17
 import BRV.Proofs.RepoSaveLoad
+import BRV.Proofs.LinearWorld
 
 namespace BRV.Repo
 
@@ -129,5 +130,28 @@ example : Linear exC10 := by
   simp only [Option.some.injEq] at hd
   subst hd
   rfl
+
+
+/-- **C11 in the linear world, every generation.** At any point of any history of tip-extending
+    submissions, Cleans, Saves and Loads (any length, across file and prune boundaries, branch files appended
+    to after pruning, any number of earlier Save/Load generations): Save succeeds, Load of what it wrote
+    with any depth succeeds, the loaded repository reports the same tip, the same header at every height,
+    the same height for every hash, the stored invalid list merged with the configured one — and it is again
+    a linear world of the same chain, so every later tip-extending submission and maintenance operation is
+    covered by the same theorems. -/
+theorem C11_linear_generations (r0 : Repo) (c0 : List HData) (k0 m0 : Nat) (h0 : PLin r0 c0 k0 m0) (ops : List LinOp)
+    (hh : LinHist r0 ops) (depth : Int) (hd : 0 ≤ depth) (g : Hdr) :
+    ∃ (rs rl : Repo), save (runOps r0 ops) = (rs, none) ∧ load rs depth g = (rl, none) ∧
+      tipHeight rl = tipHeight (runOps r0 ops) ∧ tipId rl = tipId (runOps r0 ops) ∧ tipWork rl = tipWork (runOps r0 ops) ∧
+      (∀ h : Nat, headerAt rl h = headerAt (runOps r0 ops) h) ∧ (∀ id, hashHeight rl id = hashHeight (runOps r0 ops) id) ∧
+      rl.invalid = mergedInvalid rs.store rs.cfg ∧ rs.store.invalid = some (runOps r0 ops).invalid ∧
+      LinHist (runOps r0 ops) [.save, .load depth g] := by
+  obtain ⟨c, k, m, hp⟩ := plin_history ops r0 c0 k0 m0 h0 hh
+  obtain ⟨rs, rl, k', hs, hl, _, h1, h2, h3, h4, h5, h6, h7⟩ := save_load_obs_lin hp depth hd g
+  refine ⟨rs, rl, hs, hl, h1, h2, h3, h4, h5, h6, h7, trivial, ?_, trivial⟩
+  show 0 ≤ depth ∧ (applyOp (runOps r0 ops) .save).store.index.isSome = true
+  obtain ⟨rs', d0, hs', _, _, hidx, _⟩ := save_lin hp
+  refine ⟨hd, ?_⟩
+  simp only [applyOp, hs', hidx]; rfl
 
 end BRV.Repo
